@@ -7,7 +7,7 @@ import Model.Row
 import Model.JsonRead
 import Model.Cells
 import Model.Value
-import Model.CastGen
+import Model.CastMerge
 import Model.RowPrint
 import Driver.Common
 
@@ -97,7 +97,7 @@ end
     row's keys included): the skeleton of the text the model of the writer produces for these entries. -/
 def deepOrder (entries : List (Bytes × Option Val)) : Option String :=
   let ms := Members.ofList (entries.filterMap fun (k, v) => v.map fun v => (k, v))
-  match RowPrint.marshalRow ⟨genTables, Ext.empty⟩ ms with
+  match RowPrint.marshalRow ⟨drvTables, Ext.empty⟩ ms with
   | .ok bs =>
     let (tree, ok) := Json.unmarshal bs
     if ok then some (skelJV (.obj tree)) else some "UNREADABLE"
@@ -137,7 +137,7 @@ open Jl.Driver (Result)
     all the same, the cell is marked and the case abstains. -/
 def poison : Val := .cell (.other 424242) .auto .none
 
-def env0 : Value.Env := ⟨genTables, Ext.empty⟩
+def env0 : Value.Env := ⟨drvTables, Ext.empty⟩
 
 def vops : CellOps Val Dyn ErrClass :=
   { newCell := Cells.newCell, autoCell := Cells.autoCell,
